@@ -1234,6 +1234,67 @@ hops_run(Params *p)
 			sim_probe("c08_ttl_drop_kept_connection");
 		}
 	}
+	// A burst of sends against a peer that is not reading: some go straight to
+	// the connection, some wait in the send buffer, some stay parked with their
+	// aio.  However a message got to the wire, it carries its count plus one.
+	if (p->i("bp", 0) != 0 && w.mon.active == 1) {
+		int                               K = (int) W(4, 12);
+		std::vector<UAio *>               us;
+		std::vector<uint32_t>             hops;
+		std::vector<std::vector<uint8_t>> bodies;
+		int                               parked = 0;
+		for (int i = 0; i < K; i++) {
+			size_t   bl = (size_t) W(400, 2500);
+			nng_msg *m  = tag_msg(bl, ORG_A, ST_DATA, fwd_ser + (uint32_t) i);
+			uint32_t h  = 0;
+			if (w.rawmode) {
+				h = (uint32_t) W(0, 0xfe);
+				MUST(nng_msg_header_append_u32(m, h));
+			}
+			hops.push_back(h);
+			bodies.push_back(std::vector<uint8_t>((uint8_t *) nng_msg_body(m), (uint8_t *) nng_msg_body(m) + bl));
+			UAio *u = new UAio();
+			nng_aio_set_msg(u->aio, m);
+			nng_aio_set_timeout(u->aio, 20000);
+			u->arm("pair1_bp_send");
+			nng_socket_send(w.A, u->aio);
+			if (W(0, 3) == 0)
+				sim_quiesce(500000);
+			if (!u->poll())
+				parked++;
+			us.push_back(u);
+		}
+		sim_quiesce(2000000);
+		sim_event("bp burst: %d sends, %d parked at submission", K, parked);
+		if (parked > 0)
+			sim_probe("c08_hops_parked_sender");
+		for (int i = 0; i < K; i++) {
+			std::vector<uint8_t> pl;
+			int                  fr = wire_read_frame(w.wire, pl, 10000000000ull);
+			if (fr != 1)
+				VIOL("lost_message", "message %d of a burst of %d never reached the wire (%d)", i, K, fr);
+			if (pl.size() != 4 + bodies[(size_t) i].size() ||
+			    memcmp(pl.data() + 4, bodies[(size_t) i].data(), bodies[(size_t) i].size()) != 0)
+				VIOL("altered_message", "message %d of the burst altered or out of order on the wire: %s", i,
+				    h_hex(pl.data(), pl.size(), 24).c_str());
+			uint32_t wh = ((uint32_t) pl[0] << 24) | ((uint32_t) pl[1] << 16) | ((uint32_t) pl[2] << 8) | pl[3];
+			if (wh != hops[(size_t) i] + 1)
+				VIOL("hop_not_incremented",
+				    "message %d of a burst (%d of them parked behind a busy connection, SENDBUF in use) was handed "
+				    "over with hop count %u and reached the wire with %u (expected %u)",
+				    i, parked, hops[(size_t) i], wh, hops[(size_t) i] + 1);
+		}
+		for (auto u : us) {
+			u->wait(0);
+			if (u->result != 0) {
+				nng_msg_free(nng_aio_get_msg(u->aio));
+				VIOL("send_failed", "send on a connected PAIR1 socket failed: %d", (int) u->result);
+			}
+			delete u;
+		}
+		fwd_ser += (uint32_t) K;
+		sim_probe("c08_hops_burst_checked");
+	}
 	if (any)
 		sim_stat("nontrivial", 1);
 	close(w.wire.fd);
@@ -1243,6 +1304,12 @@ hops_run(Params *p)
 static void
 hops_cfg(sim_config *cfg, Params *p)
 {
+	long bp = p->draw("bp", 0, 1);
+	p->set("bp", bp);
+	if (bp != 0) {
+		cfg->sndbuf_min = 1024;
+		cfg->sndbuf_max = 6000;
+	}
 	long net = p->draw("net", 0, 3);
 	if (net == 1) {
 		cfg->seg_mode = 3;
